@@ -169,8 +169,31 @@ fn one_case(ctx: &mut Ctx, case: &g::Case, tag: &str) {
 }
 
 /// one transaction on a (possibly already used) interpreter; `listed` is THIS transaction's contract-input set
+/// does any contract-table entry (code, a balance of one of the case's assets, a storage slot) exist for `id`
+fn has_entry(st: &MemoryStorage, id: &ContractId, assets: &[fuel_types::AssetId]) -> bool {
+    use fuel_vm::storage::ContractsAssetsStorage as _;
+    <MemoryStorage as StorageInspect<ContractsRawCode>>::contains_key(st, id).unwrap_or(false)
+        || assets.iter().any(|a| st.contract_asset_id_balance(id, a).ok().flatten().is_some())
+        || st.all_contract_state().any(|(k, _)| k.contract_id() == id)
+}
+
 fn run_on_vm(ctx: &mut Ctx, vm: &mut Vm, case: &g::Case, tag: &str) {
     let listed: Vec<ContractId> = case.listed.iter().map(|i| case.call_ids[*i]).collect();
+    // ids that must not gain contract-table entries unless listed: every call-struct id, zero, 0xff.., the tx id
+    let tx_id = { use fuel_tx::UniqueIdentifier; case.checked.transaction().id(&case.params.chain_id()) };
+    let mut probe: Vec<ContractId> = case.call_ids.to_vec();
+    probe.extend([ContractId::zeroed(), ContractId::new([0xff; 32]), ContractId::new(*tx_id)]);
+    let assets: Vec<fuel_types::AssetId> = { use fuel_tx::field::ScriptData; let d = case.checked.transaction().script_data();
+        (0..4).filter_map(|i| d.get(g::OFF_ASSETS as usize + 32 * i..g::OFF_ASSETS as usize + 32 * i + 32).map(|b| fuel_types::AssetId::try_from(b).unwrap())).collect() };
+    let before: Vec<bool> = probe.iter().map(|c| has_entry(&vm.as_ref().inner, c, &assets)).collect();
+    let after_check = |ctx: &mut Ctx, vm: &Vm| {
+        for (c, b) in probe.iter().zip(before.iter()) {
+            if !listed.contains(c) && !*b && has_entry(&vm.as_ref().inner, c, &assets) {
+                ctx.oracle_fail("unlisted-contract-entry-created", &format!("{tag} contract={}", hex(&c.as_ref()[..4])),
+                    "a ContractsAssets / ContractsRawCode / ContractsState entry exists after the transaction for a contract that is not among its inputs and had none before");
+            }
+        }
+    };
     vm.as_ref().drain();
     vm.set_single_stepping(true);
     let check = |ctx: &mut Ctx, what: &str, log: &[(Tab, ContractId)]| {
@@ -229,6 +252,11 @@ fn run_on_vm(ctx: &mut Ctx, vm: &mut Vm, case: &g::Case, tag: &str) {
                 ctx.emit(&format!("acc {name} {} {}", passed as u8, if obs.is_empty() { "-".to_string() } else { obs.join(",") }), "ok");
                 ctx.count(&format!("acc.{name}.{}", if passed { "passed" } else { "refused" }));
                 if let Some(t) = target { if !listed.contains(&t) { ctx.count(&format!("acc.{name}.unlisted-target")); } }
+                if let Some(t) = target {
+                    let kind = if t == ContractId::zeroed() { Some("zero") } else if t == ContractId::new([0xff; 32]) { Some("ff") } else if *t == *tx_id { Some("txid") }
+                        else if listed.iter().any(|l| l.as_ref()[..31] == t.as_ref()[..31] && *l != t) { Some("near-listed") } else if Some(t) == current { Some("self") } else { None };
+                    if let Some(k) = kind { ctx.count(&format!("special.{name}.{k}.{}", if current.is_some() { "contract" } else { "script" })); }
+                }
             }
         }
         // frame events for the invariant replay
@@ -241,6 +269,7 @@ fn run_on_vm(ctx: &mut Ctx, vm: &mut Vm, case: &g::Case, tag: &str) {
         }
         if panicked { break; }
     }
+    after_check(ctx, vm);
     // depth of the frame chain now
     let mut depth = 0; let mut fp = vm.registers()[RegId::FP];
     while fp != 0 && depth < 1000 { let off = fp as usize + 64 + 8 * 6; let Ok(b) = vm.memory().read_bytes::<_, 8>(off) else { break }; fp = u64::from_be_bytes(b); depth += 1; }
@@ -284,7 +313,53 @@ fn predicates(ctx: &mut Ctx) {
     }
 }
 
+/// corpus: EVERY contract-addressing opcode x EVERY special unlisted id x {script, contract} context, with non-zero amounts and
+/// enough balance that the access would really happen if the check were skipped
+fn special_id_corpus(ctx: &mut Ctx) {
+    use fuel_asm::op;
+    let ops = ["TR", "CALL", "BAL", "CCP", "CSIZ", "CROO", "LDC"];
+    let kinds = ["slot-zero", "slot-ff", "slot-near-listed", "vm-addr-0-txid", "vm-addr-32-base-asset", "fresh-heap"];
+    for (oi, opname) in ops.iter().enumerate() {
+        for (ki, kind) in kinds.iter().enumerate() {
+            for internal in [false, true] {
+                let n_contracts = 1usize;
+                let mut acc: Vec<Instruction> = vec![op::gtf_args(g::R_BASE, RegId::ZERO, fuel_asm::GTFArgs::ScriptData)];
+                match ki {
+                    0 | 1 | 2 => acc.push(op::addi(g::R_T1, g::R_BASE, g::OFF_CALLS + 48 * (n_contracts + ki) as u16)),
+                    3 => acc.push(op::move_(g::R_T1, RegId::ZERO)),
+                    4 => acc.push(op::movi(g::R_T1, 32)),
+                    _ => { acc.push(op::movi(g::R_T6, 48)); acc.push(op::aloc(g::R_T6)); acc.push(op::move_(g::R_T1, RegId::HP)); }
+                }
+                acc.push(op::addi(g::R_T2, g::R_BASE, g::OFF_ASSETS));
+                acc.push(op::movi(g::R_T3, 1));
+                match oi {
+                    0 => acc.push(op::tr(g::R_T1, g::R_T3, g::R_T2)),
+                    1 => acc.push(op::call(g::R_T1, g::R_T3, g::R_T2, RegId::CGAS)),
+                    2 => acc.push(op::bal(0x20, g::R_T2, g::R_T1)),
+                    3 => { acc.push(op::movi(g::R_T6, 16)); acc.push(op::aloc(g::R_T6)); acc.push(op::ccp(RegId::HP, g::R_T1, RegId::ZERO, g::R_T6)); }
+                    4 => acc.push(op::csiz(0x20, g::R_T1)),
+                    5 => { acc.push(op::movi(g::R_T6, 32)); acc.push(op::aloc(g::R_T6)); acc.push(op::croo(RegId::HP, g::R_T1)); }
+                    _ => { acc.push(op::movi(g::R_T6, 8)); acc.push(op::ldc(g::R_T1, RegId::ZERO, g::R_T6, 0)); }
+                }
+                acc.push(op::log(0x20, RegId::ONE, RegId::ZERO, RegId::ZERO));
+                acc.push(op::ret(RegId::ONE));
+                let (contract, script) = if internal {
+                    (acc, vec![op::gtf_args(g::R_BASE, RegId::ZERO, fuel_asm::GTFArgs::ScriptData), op::addi(g::R_T1, g::R_BASE, g::OFF_CALLS),
+                               op::addi(g::R_T2, g::R_BASE, g::OFF_ASSETS), op::call(g::R_T1, RegId::ZERO, g::R_T2, RegId::CGAS), op::ret(RegId::ONE)])
+                } else { (vec![op::ret(RegId::ONE)], acc) };
+                let seed = 0xC30_0000 + (oi * 100 + ki * 10 + internal as usize) as u64;
+                let tag = format!("special-id op={opname} id={kind} context={}", if internal { "contract" } else { "script" });
+                match ctx.guard(move || g::fixed_case(seed, &[contract], script, &[(0, 0)], 200_000)) {
+                    Ok(case) => { one_case(ctx, &case, &tag); ctx.count("corpus.special-id"); }
+                    Err(m) => { ctx.count("corpus.rejected"); ctx.note(&format!("{tag}: {m}")); }
+                }
+            }
+        }
+    }
+}
+
 pub fn run(ctx: &mut Ctx) {
+    special_id_corpus(ctx);
     let n = ctx.n(150, 1500);
     for i in 0..n {
         let gas = *ctx.rng.pick(&[20_000u64, 100_000]);
@@ -292,6 +367,7 @@ pub fn run(ctx: &mut Ctx) {
         knobs.fault_pm = 0;
         knobs.unlisted_pm = *ctx.rng.pick(&[0, 200, 500]);
         knobs.code_ops = true;
+        knobs.special_ids = true;
         let seed = ctx.rng.0;
         match ctx.guard(|| { let mut r = crate::ctx::Rng(seed); let c = g::gen_case(&mut r, knobs, gas, None); (c, r) }) {
             Ok((c, r)) => { ctx.rng = r; one_case(ctx, &c, &format!("case#{i} rng={seed:#x} gas={gas} unlisted_pm={}", knobs.unlisted_pm)); }
@@ -306,6 +382,7 @@ pub fn run(ctx: &mut Ctx) {
         knobs.fault_pm = 0;
         knobs.unlisted_pm = 600;
         knobs.code_ops = true;
+        knobs.special_ids = true;
         knobs.max_blocks = 6;
         let k = ctx.rng.range(3, 5) as usize;
         let seed = ctx.rng.0;
